@@ -120,9 +120,9 @@ func compareEval(v evalVector, e M, d *AV, together bool) (kind string, text str
 
 func checkC01(rc *Run) error {
 	rc.Level = "model_checking"
-	// quick: one of 8 shards of the level-1 grammar (about 79 000 expressions); thorough: one of 24 shards of the level-2
+	// quick: one of 12 shards of the level-1 grammar (about 79 000 expressions); thorough: one of 24 shards of the level-2
 	// grammar (452 457 expressions: every operator applied to the output of every operator) - the seed picks the shard
-	nsh := rc.Pick(8, 24)
+	nsh := rc.Pick(12, 24)
 	level := rc.Pick(1, 2)
 	shard := int(rc.Seed % int64(nsh))
 	if shard < 0 {
